@@ -37,7 +37,7 @@ ASSUMPTIONS = [
 
 READ = 16384
 DTYPES = [None, "int16", "int32", "float64", "uint8", "int8"]
-ACCESS = ["path", "path_forced", "bytesio", "file"]
+ACCESS = ["path", "path_forced", "bytesio", "file", "tmpfile", "unnamed"]
 RATES = [8000, 16000, 20000, 44100, 1]
 
 _selftested = []
@@ -118,6 +118,27 @@ def read_with(access, data, dtype, stem="utt"):
         warnings.simplefilter("always")
         if access == "bytesio":
             out = read_signal(io.BytesIO(data), dtype=np_dtype, force_as="sph")
+        elif access == "tmpfile":
+            # an anonymous temporary file: an open binary stream whose .name is a file descriptor number
+            with tempfile.TemporaryFile() as f:
+                f.write(data)
+                f.seek(0)
+                out = read_signal(f, dtype=np_dtype, force_as="sph")
+        elif access == "unnamed":
+            # a raw stream object without any .name attribute
+            class _Stream(io.RawIOBase):
+                def __init__(self, b):
+                    self._b = io.BytesIO(b)
+
+                def readable(self):
+                    return True
+
+                def readinto(self, buf):
+                    chunk = self._b.read(len(buf))
+                    buf[: len(chunk)] = chunk
+                    return len(chunk)
+
+            out = read_signal(io.BufferedReader(_Stream(data)), dtype=np_dtype, force_as="sph")
         else:
             with tempfile.TemporaryDirectory(prefix="verif_c12_") as td:
                 name = stem + (".wv1" if access == "path_forced" else ".sph")
@@ -340,7 +361,7 @@ def _bad_header_cases():
         "n": st.integers(1, 40),
         "seed": st.integers(0, 2 ** 31 - 1),
         "k": st.sampled_from([1, 1, 2]),
-        "access": st.sampled_from(["path", "bytesio", "file"]),
+        "access": st.sampled_from(["path", "bytesio", "file", "tmpfile", "unnamed"]),
     }
     return st.one_of(
         st.fixed_dictionaries(dict(common, kind=st.just("magic_byte"), pos=st.integers(0, 6), xor=st.one_of(st.integers(1, 255), st.sampled_from([1, 32, 128])))),
